@@ -25,15 +25,18 @@ import (
 
 type c44Case struct {
 	Cfg          verifsim.Config `json:"cfg"`
-	Streams      [][]int         `json:"streams"`  // key indices; >= 1000 means a rejected CID (index - 1000)
+	Streams      [][]int         `json:"streams"` // key indices; >= 1000 means a rejected CID (index - 1000)
 	Prioritized  bool            `json:"prioritized"`
 	Buffered     bool            `json:"buffered"`
-	MaxBatch     int             `json:"max_batch"` // -1: option not given
+	MaxBatch     int             `json:"max_batch"`  // -1: option not given
 	Throughput   int             `json:"throughput"` // -1: no callback; otherwise the threshold
 	CallbackMore bool            `json:"callback_more"`
 	ProvideMany  bool            `json:"provide_many"`
 	RouterFail   []int           `json:"router_fail"` // 1-based call numbers that fail
 	NotReadyMin  int             `json:"not_ready_minutes"`
+	// SecondPass: Reprovide is called a second time on the same system (same key
+	// provider function); every pass must announce every allowed key again
+	SecondPass bool `json:"second_pass,omitempty"`
 }
 
 func c44Gen(t *rapid.T, tier string) any {
@@ -64,6 +67,7 @@ func c44Gen(t *rapid.T, tier string) any {
 	if rapid.IntRange(0, 4).Draw(t, "notready") == 0 {
 		c.NotReadyMin = rapid.IntRange(1, 3).Draw(t, "notreadymin")
 	}
+	c.SecondPass = rapid.IntRange(0, 2).Draw(t, "secondpass") == 0
 	c.Cfg = verifsim.GenConfig(t, 300, 200000, 3*time.Hour, []time.Duration{time.Millisecond, time.Second, time.Minute})
 	return c
 }
@@ -135,11 +139,11 @@ func (r c44RouterMany) ProvideMany(ctx context.Context, keys []mh.Multihash) err
 // turns an endless loop into a return.
 type c44Ctx struct {
 	context.Context
-	mu     sync.Mutex
-	polls  int
-	budget int
+	mu      sync.Mutex
+	polls   int
+	budget  int
 	tripped bool
-	done   chan struct{}
+	done    chan struct{}
 }
 
 func (c *c44Ctx) Err() error {
@@ -242,123 +246,140 @@ func c44Run(t *testing.T, ci any, trace bool) *verifsim.Result {
 		if err != nil {
 			panic(err)
 		}
-		budget := 20*total + 200
-		cctx := &c44Ctx{Context: context.Background(), budget: budget, done: make(chan struct{})}
-		var rerr error
-		returned := false
-		s.Go("reprovide", func() {
-			rerr = sys.Reprovide(cctx)
-			returned = true
-		})
-		done := s.Loop()
-		if !done {
-			if s.DeadlockSeen() {
-				s.Failf("reprovide-hang", "Reprovide never returned:\n%s", verifsim.StuckStacks())
+		defer func() {
+			s.Drain()
+			cerr := make(chan error, 1)
+			go func() { cerr <- sys.Close() }()
+			select {
+			case <-cerr:
+			case <-time.After(10 * time.Minute):
 			}
+		}()
+		passes := 1
+		if c.SecondPass {
+			passes = 2
 		}
-		s.Drain()
-		cerr := make(chan error, 1)
-		go func() { cerr <- sys.Close() }()
-		select {
-		case <-cerr:
-		case <-time.After(10 * time.Minute):
-		}
-		if !returned || s.Failed() {
-			return
-		}
-		if cctx.tripped {
-			s.Failf("non-termination", "Reprovide polled its context more than %d times for %d keys without finishing (max batch %d, throughput threshold %d); the pass does not terminate", budget, total, c.MaxBatch, c.Throughput)
-			return
-		}
-		if rerr != nil {
-			s.Failf("reprovide-error", "Reprovide failed with %v although neither the key provider nor the context failed", rerr)
-			return
-		}
-		// ---- oracles ----
-		rejected := func(k cid.Cid) bool { p := k.Prefix(); return p.MhType == mh.MD5 || p.MhType == mh.MURMUR3X64_64 || p.MhLength < 20 }
-		announced := map[string]bool{}
-		limit := -1
-		if c.MaxBatch > 0 {
-			limit = c.MaxBatch
-		}
-		if c.Throughput > 0 && (limit < 0 || c.Throughput < limit) {
-			limit = c.Throughput
-		}
-		if !c.ProvideMany {
-			limit = 1
-		}
-		for _, b := range rt.batches {
-			if limit > 0 && len(b) > limit {
-				s.Failf("batch-too-large", "the router received a batch of %d keys, the configured maximum is %d (MaxBatchSize %d, throughput threshold %d, ProvideMany=%v)", len(b), limit, c.MaxBatch, c.Throughput, c.ProvideMany)
+		for pass := 0; pass < passes; pass++ {
+			rt.batches, emitted = nil, nil
+			// the throughput threshold bounds the batches of a pass only if the callback is
+			// still installed when the pass starts (a callback that answered "no more
+			// reports" is removed for good)
+			thresholdApplies := c.Throughput > 0 && !(callbacks > 0 && !c.CallbackMore)
+			budget := 20*total + 200
+			cctx := &c44Ctx{Context: context.Background(), budget: budget, done: make(chan struct{})}
+			var rerr error
+			returned := false
+			s.Logf("reprovide pass %d", pass+1)
+			s.Go("reprovide", func() {
+				rerr = sys.Reprovide(cctx)
+				returned = true
+			})
+			done := s.Loop()
+			if !done {
+				if s.DeadlockSeen() {
+					s.Failf("reprovide-hang", "Reprovide (pass %d) never returned:\n%s", pass+1, verifsim.StuckStacks())
+				}
+			}
+			if !returned || s.Failed() {
 				return
 			}
-			for _, h := range b {
-				announced[string(h)] = true
+			if cctx.tripped {
+				s.Failf("non-termination", "Reprovide polled its context more than %d times for %d keys without finishing (max batch %d, throughput threshold %d); the pass does not terminate", budget, total, c.MaxBatch, c.Throughput)
+				return
 			}
-		}
-		for _, st := range c.Streams {
-			for _, k := range st {
-				kc := c44Cid(k)
-				if rejected(kc) {
-					if announced[string(kc.Hash())] {
-						s.Failf("rejected-key-announced", "key %s, which the allowlist rejects, was announced", kc)
-						return
-					}
-					continue
-				}
-				if len(c.RouterFail) == 0 && !announced[string(kc.Hash())] {
-					s.Failf("key-not-announced", "key %s (index %d) was produced by the key provider but never passed to the router (honest router, %d batches)", kc, k, len(rt.batches))
+			if rerr != nil {
+				s.Failf("reprovide-error", "Reprovide failed with %v although neither the key provider nor the context failed", rerr)
+				return
+			}
+			// ---- oracles ----
+			rejected := func(k cid.Cid) bool {
+				p := k.Prefix()
+				return p.MhType == mh.MD5 || p.MhType == mh.MURMUR3X64_64 || p.MhLength < 20
+			}
+			announced := map[string]bool{}
+			limit := -1
+			if c.MaxBatch > 0 {
+				limit = c.MaxBatch
+			}
+			if thresholdApplies && (limit < 0 || c.Throughput < limit) {
+				limit = c.Throughput
+			}
+			if !c.ProvideMany {
+				limit = 1
+			}
+			for _, b := range rt.batches {
+				if limit > 0 && len(b) > limit {
+					s.Failf("batch-too-large", "the router received a batch of %d keys, the configured maximum is %d (MaxBatchSize %d, throughput threshold %d, ProvideMany=%v)", len(b), limit, c.MaxBatch, c.Throughput, c.ProvideMany)
 					return
 				}
+				for _, h := range b {
+					announced[string(h)] = true
+				}
 			}
-		}
-		// prioritized provider: every key of every stream, minus what an earlier stream emitted
-		if c.Prioritized {
-			// Earliest stream of every key, its multiplicity there, and the order of first
-			// occurrences. Whether duplicates *within* one stream are emitted once or
-			// several times is not fixed by the statement; both are accepted.
-			type info struct{ stream, mult, order int }
-			first := map[string]*info{}
-			n := 0
-			for i, st := range c.Streams {
+			for _, st := range c.Streams {
 				for _, k := range st {
-					ks := c44Cid(k).KeyString()
-					if in, ok := first[ks]; ok {
-						if in.stream == i {
-							in.mult++
+					kc := c44Cid(k)
+					if rejected(kc) {
+						if announced[string(kc.Hash())] {
+							s.Failf("rejected-key-announced", "key %s, which the allowlist rejects, was announced", kc)
+							return
 						}
 						continue
 					}
-					first[ks] = &info{stream: i, mult: 1, order: n}
-					n++
-				}
-			}
-			count := map[string]int{}
-			lastOrder := -1
-			for i, k := range emitted {
-				in, ok := first[k.KeyString()]
-				if !ok {
-					s.Failf("prioritized-wrong", "the prioritized provider emitted %s, which is in none of the streams %v", k, c.Streams)
-					return
-				}
-				count[k.KeyString()]++
-				if count[k.KeyString()] > in.mult {
-					s.Failf("prioritized-wrong", "the prioritized provider emitted %s %d times; it occurs %d time(s) in its first stream (#%d), later streams must not emit it again (streams %v)", k, count[k.KeyString()], in.mult, in.stream, c.Streams)
-					return
-				}
-				if count[k.KeyString()] == 1 {
-					if in.order < lastOrder {
-						s.Failf("prioritized-wrong", "emission #%d (%s) is out of order with respect to the stream priorities (streams %v)", i, k, c.Streams)
+					if len(c.RouterFail) == 0 && !announced[string(kc.Hash())] {
+						s.Failf("key-not-announced", "key %s (index %d) was produced by the key provider but never passed to the router (honest router, %d batches)", kc, k, len(rt.batches))
 						return
 					}
-					lastOrder = in.order
 				}
 			}
-			for ks, in := range first {
-				if count[ks] == 0 {
-					kc, _ := cid.Cast([]byte(ks))
-					s.Failf("prioritized-wrong", "key %s of stream #%d was never emitted by the prioritized provider (streams %v)", kc, in.stream, c.Streams)
-					return
+			// prioritized provider: every key of every stream, minus what an earlier stream emitted
+			if c.Prioritized {
+				// Earliest stream of every key, its multiplicity there, and the order of first
+				// occurrences. Whether duplicates *within* one stream are emitted once or
+				// several times is not fixed by the statement; both are accepted.
+				type info struct{ stream, mult, order int }
+				first := map[string]*info{}
+				n := 0
+				for i, st := range c.Streams {
+					for _, k := range st {
+						ks := c44Cid(k).KeyString()
+						if in, ok := first[ks]; ok {
+							if in.stream == i {
+								in.mult++
+							}
+							continue
+						}
+						first[ks] = &info{stream: i, mult: 1, order: n}
+						n++
+					}
+				}
+				count := map[string]int{}
+				lastOrder := -1
+				for i, k := range emitted {
+					in, ok := first[k.KeyString()]
+					if !ok {
+						s.Failf("prioritized-wrong", "the prioritized provider emitted %s, which is in none of the streams %v", k, c.Streams)
+						return
+					}
+					count[k.KeyString()]++
+					if count[k.KeyString()] > in.mult {
+						s.Failf("prioritized-wrong", "the prioritized provider emitted %s %d times; it occurs %d time(s) in its first stream (#%d), later streams must not emit it again (streams %v)", k, count[k.KeyString()], in.mult, in.stream, c.Streams)
+						return
+					}
+					if count[k.KeyString()] == 1 {
+						if in.order < lastOrder {
+							s.Failf("prioritized-wrong", "emission #%d (%s) is out of order with respect to the stream priorities (streams %v)", i, k, c.Streams)
+							return
+						}
+						lastOrder = in.order
+					}
+				}
+				for ks, in := range first {
+					if count[ks] == 0 {
+						kc, _ := cid.Cast([]byte(ks))
+						s.Failf("prioritized-wrong", "key %s of stream #%d was never emitted by the prioritized provider in pass %d (streams %v)", kc, in.stream, pass+1, c.Streams)
+						return
+					}
 				}
 			}
 		}
